@@ -104,3 +104,27 @@ extern "C" void harness_pip_dbg() {
   VA(r == PointInPolygonResult::IsOn);
   verif_reach();
 }
+
+// C01 (crossings on very flat edges are pulled back onto the edge by GetClosestPointOnSegment): the returned point is the projection
+// of offPt onto the segment, clamped to its end points, up to the rounding of the result to integers. Exact integer oracle:
+// with d = seg2 - seg1, t = (offPt - seg1).d, n = |d|^2:  t <= 0 -> seg1;  t >= n -> seg2;  else |(offPt - r).d| <= (|dx| + |dy|) / 2 (+1) and
+// r inside the segment's bounding box.
+#ifndef QLIM
+#define QLIM 16
+#endif
+extern "C" void harness_closestpoint() {
+  Point64 s1(nd_range(-QLIM, QLIM), nd_range(-QLIM, QLIM)), s2(nd_range(-QLIM, QLIM), nd_range(-QLIM, QLIM)), off(nd_range(-QLIM, QLIM), nd_range(-QLIM, QLIM));
+  Point64 r = GetClosestPointOnSegment(off, s1, s2);
+  int64_t dx = s2.x - s1.x, dy = s2.y - s1.y;
+  if (dx == 0 && dy == 0) { VA(r == s1); verif_reach(); return; }
+  int64_t t = (off.x - s1.x) * dx + (off.y - s1.y) * dy, n = dx * dx + dy * dy;
+  if (t <= 0) VA(r == s1);
+  else if (t >= n) VA(r == s2);
+  else {
+    int64_t e = (off.x - r.x) * dx + (off.y - r.y) * dy; if (e < 0) e = -e;
+    int64_t adx = dx < 0 ? -dx : dx, ady = dy < 0 ? -dy : dy;
+    VA(2 * e <= adx + ady + 2);
+    VA(r.x >= (s1.x < s2.x ? s1.x : s2.x) && r.x <= (s1.x < s2.x ? s2.x : s1.x) && r.y >= (s1.y < s2.y ? s1.y : s2.y) && r.y <= (s1.y < s2.y ? s2.y : s1.y));
+  }
+  verif_reach();
+}
